@@ -13,21 +13,27 @@ from vlib.hx import verdict, CASE, NATIVE
 
 LAST_DETAIL: Any = None
 _c = CASE or 0
-KINDS = ["plain", "Jump", "Branch", "Call", "CaseValue", "weird"]
+KINDS = ["plain", "Jump", "Branch", "Call", "CaseValue", "weird", "noargs"]
 # case = layout (0..3) + 4 * (kind of op0) + 24 * (kind of op1) ; remaining ops are plain/Jump by symbolic flag
-LAYOUT = _c % 4          # 0: one routine; 1: two routines split after op 0; 2: [ops][] (alias last); 3: [][ops] (alias first)
-K0 = KINDS[(_c // 4) % 6]
-K1 = KINDS[(_c // 24) % 6]
+LAYOUT = _c % 5          # 0: one routine; 1: split after op 0; 2: [ops][] (alias last); 3: [][ops]; 4: two coroutines
+K0 = KINDS[(_c // 5) % 7]
+K1 = KINDS[(_c // 35) % 7]
 PREFIX = ""
 
 
 def cases(tier: str) -> list[int]:
-    return [lay + 4 * a + 24 * b for lay in range(4) for a in range(6) for b in range(6)]
+    return [lay + 5 * a + 35 * b for lay in range(5) for a in range(7) for b in range(7)]
+
+
+def case_of(lay: int, a: int, b: int) -> int:
+    return lay + 5 * a + 35 * b
 
 
 def _mk(kind: str, off: Any, tgt: Any, i: int) -> SsbOperation:
     if kind == "plain":
         return SsbOperation(off, SsbOpCode(-1, "op_plain"), [i, SsbOpParamConstant("CONST_A")])
+    if kind == "noargs":
+        return SsbOperation(off, SsbOpCode(-1, "End"), [])
     if kind == "weird":
         return SsbOperation(off, SsbOpCode(-1, "Some_Unknown_Op9"), [SsbOpParamConstString("s"), -3])
     if kind == "Jump":
@@ -58,11 +64,18 @@ def _run(n: int, gaps: list[int], tgts: list[int], more_jump: list[bool], prefix
         routines = [ops[:1], ops[1:]]
     elif LAYOUT == 2:
         routines = [ops, []]
-    else:
+    elif LAYOUT == 3:
         routines = [[], ops]
-    infos = [SsbRoutineInfo(SsbRoutineType.GENERIC, 0) if i == 0 else SsbRoutineInfo(SsbRoutineType.ACTOR, 7)
-             for i in range(len(routines))]
-    dec = SsbScriptSsbDecompiler(infos, [list(r) for r in routines], [])
+    else:
+        routines = [ops[:1], ops[1:]]
+    coros: list[Any] = []
+    if LAYOUT == 4:
+        infos = [SsbRoutineInfo(SsbRoutineType.COROUTINE, 0) for _ in routines]
+        coros = [SsbCoroutine(0, "CORO_A"), SsbCoroutine(1, "CORO_B")]
+    else:
+        infos = [SsbRoutineInfo(SsbRoutineType.GENERIC, 0) if i == 0 else SsbRoutineInfo(SsbRoutineType.ACTOR, 7)
+                 for i in range(len(routines))]
+    dec = SsbScriptSsbDecompiler(infos, [list(r) for r in routines], coros)
     text, smap = dec.convert(prefix=prefix) if prefix else dec.convert()
     if NATIVE:
         ctext = text
@@ -98,6 +111,8 @@ def _run(n: int, gaps: list[int], tgts: list[int], more_jump: list[bool], prefix
         ok = ok and comp.routine_infos[ri].type == infos[ri].type
         if infos[ri].type == SsbRoutineType.ACTOR:
             ok = ok and comp.routine_infos[ri].linked_to == 7
+        if infos[ri].type == SsbRoutineType.COROUTINE:
+            ok = ok and comp.named_coroutines[ri] == ["CORO_A", "CORO_B"][ri]
         ok = ok and len(got[ri]) == len(routines[ri])
     if not ok:
         return False
@@ -146,18 +161,20 @@ OBLIGATIONS = [
              "jump parameter denotes the corresponding op",
      "cases": {"quick": cases("quick"), "thorough": cases("thorough")},
      "timeout": {"quick": 200, "thorough": 600},
-     "bounds": "2 ops; kinds of both ops from {plain, Jump, Branch, Call, CaseValue, unknown name} (case split); 4 routine "
-               "layouts incl. empty (alias) routines; offsets symbolic with gaps 0-2; targets symbolic",
+     "bounds": "2 ops; kinds of both ops from {plain, Jump, Branch, Call, CaseValue, unknown name, parameterless} (case "
+               "split, 49 pairs); 5 routine layouts incl. empty (alias) routines and named coroutines; offsets symbolic "
+               "with gaps 0-2; targets symbolic",
      "encodes": _ENC,
      "stubs": ["the compile stage (ANTLR lexer/parser/listener) runs untraced on the text, which is concrete on every path"]},
     {"id": "C07.S1b", "module": __name__, "func": "h_roundtrip3",
      "what": "3 ops (third op plain or Jump by a symbolic flag), same post-condition",
-     "cases": {"quick": [c for c in cases("quick") if c % 4 in (0, 1) and (c // 4) % 6 in (1, 2) and (c // 24) % 6 in (0, 1, 3)],
+     "cases": {"quick": [case_of(lay, a, b) for lay in (0, 1) for a in (1, 2) for b in (0, 1, 6)] +
+                        [case_of(4, 3, 6), case_of(0, 6, 1)],
                "thorough": cases("thorough")},
      "timeout": {"quick": 240, "thorough": 1800},
-     "bounds": {"quick": "3 ops; op0 in {Jump, Branch}, op1 in {plain, Jump, Call}, op2 plain/Jump; layouts one routine or "
-                         "split after op0; gaps 0-2; targets symbolic",
-                "thorough": "3 ops; all 36 kind pairs x 4 layouts"},
+     "bounds": {"quick": "3 ops; op0 in {Jump, Branch}, op1 in {plain, Jump, parameterless op}, op2 plain/Jump; layouts one "
+                         "routine or split after op0 (+ coroutine and parameterless-first slices); gaps 0-2; targets symbolic",
+                "thorough": "3 ops; all 49 kind pairs x 5 layouts"},
      "encodes": _ENC,
      "stubs": ["compile stage untraced on concrete text"]},
 ]
